@@ -36,7 +36,7 @@ class Handler:
             r = fn(ex, callee, args, m)
             if r is not NotImplemented:
                 self.name = name; return r
-        raise Unsupported('no model accepted ' + callee)
+        return NotImplemented
 
 class Models:
     def __init__(self):
@@ -94,25 +94,25 @@ def hash_order(ex, items):
     if o == 'rot': return list(items[1:]) + [items[0]]
     raise Unsupported('hash order ' + o)
 
-def closure_fn(ex, v):
+def closure_fn(ex, v, hint=None):
     v = dd(v)
     if isinstance(v, Struct) and v.tag and v.tag.startswith('closure@'):
-        f = ex.resolver.closure(v.tag[len('closure@'):])
+        f = ex.resolver.closure(v.tag[len('closure@'):], hint)
         if f: return f
         raise Unsupported('no MIR for closure ' + v.tag)
     if isinstance(v, Opaque) and v.what[0] in ('fnitem', 'zst'):
         s = v.what[1]
         mm = re.search(r'closure@([^}]*)\}', s)
         if mm:
-            f = ex.resolver.closure(mm.group(1))
+            f = ex.resolver.closure(mm.group(1), hint)
             if f: return f
         return ('callee', s)
     raise Unsupported('not callable: ' + repr(v)[:80])
 
-def call_fn(ex, f, args):
+def call_fn(ex, f, args, hint=None):
     """call a closure value / fn item with explicit argument values (closure env passed by reference)"""
     fv = dd(f)
-    t = closure_fn(ex, fv)
+    t = closure_fn(ex, fv, hint)
     if isinstance(t, tuple): return ex.call_callee(t[1], list(args))
     fn = ex.fns[t]
     a0 = fn.argtys[0] if fn.argtys else ''
@@ -312,7 +312,7 @@ def m_into(ex, c, args, m):
     if re.match(r'^<String as From<&str>>', c) or re.match(r'^<&str as Into<String>>', c): return PyStr(dd(args[0]))
     if re.match(r'^<String as From<String>>', c): return args[0]
     if re.match(r'^<(u64|usize) as From<u32>>', c): return z3.ZeroExt(32, args[0])
-    raise Unsupported('no model for ' + c)
+    return NotImplemented
 @M.add(r'^<(u64|usize|u32) as TryFrom<(usize|u64|u32)>>::try_from$')
 def m_tryfrom(ex, c, args, m):
     wt = 32 if m.group(1) == 'u32' else 64; v = args[0]
@@ -565,17 +565,17 @@ def m_slice_contains(ex, c, args, m):
     for y in xs:
         if ex.decide(val_eq(y, x)): return B(True)
     return B(False)
-@M.add(r'^<\[.*\] as Index(Mut)?<std::ops::RangeFrom<usize>>>::index(_mut)?$')
+@M.add(r'^<\[.*\] as Index(Mut)?<(?:std::ops::)?RangeFrom<usize>>>::index(_mut)?$')
 def m_slice_from(ex, c, args, m):
     sl, start = args[0], conc(args[1].f[0])
     if start > len(sl): raise Panic('range start index %d out of range for slice of length %d' % (start, len(sl)))
     return SliceRef(sl.lst, sl.start + start, sl.end)
-@M.add(r'^<\[.*\] as Index(Mut)?<std::ops::RangeTo<usize>>>::index(_mut)?$')
+@M.add(r'^<\[.*\] as Index(Mut)?<(?:std::ops::)?RangeTo<usize>>>::index(_mut)?$')
 def m_slice_to(ex, c, args, m):
     sl, end = args[0], conc(args[1].f[0])
     if end > len(sl): raise Panic('range end index %d out of range for slice of length %d' % (end, len(sl)))
     return SliceRef(sl.lst, sl.start, sl.start + end)
-@M.add(r'^<\[.*\] as Index(Mut)?<std::ops::Range<usize>>>::index(_mut)?$')
+@M.add(r'^<\[.*\] as Index(Mut)?<(?:std::ops::)?Range<usize>>>::index(_mut)?$')
 def m_slice_range(ex, c, args, m):
     sl, a, b = args[0], conc(args[1].f[0]), conc(args[1].f[1])
     if a > b: raise Panic('slice index starts at %d but ends at %d' % (a, b))
@@ -845,7 +845,7 @@ def m_filter_map(ex, c, args, m):
     src = as_it(ex, args[0]); f = args[1]
     def g():
         for x in src:
-            r = call_fn(ex, f, [x])
+            r = call_fn(ex, f, [x], c)
             if r.disc == 1: yield r.payload.f[0]
     return It(g())
 @M.add(r' as Iterator>::flat_map::<')
@@ -1001,7 +1001,7 @@ def m_collect(ex, c, args, m):
         return ok(VecVal(out))
     if re.match(r'^Box<\[', tgt): return boxed(VecVal(xs))
     raise Unsupported('collect into ' + tgt)
-@M.add(r'^<std::ops::Range<usize> as Iterator>::(map|rev)')
+@M.add(r'^<(?:std::ops::)?Range<usize> as Iterator>::(map|rev)')
 def m_range_unreached(ex, c, args, m): raise Unsupported(c)
 
 # ------------------------------------------------------------------ strings (concrete)
@@ -1043,11 +1043,11 @@ def _byte_slice(s, a, b):
         if i is not None and i > len(bs): raise Panic('byte index %d is out of bounds of string' % i)
         if i is not None and i < len(bs) and (bs[i] & 0xC0) == 0x80: raise Panic('byte index %d is not a char boundary' % i)
     return PyStr(bs[a:b].decode())
-@M.add(r'^<str as Index<std::ops::RangeFrom<usize>>>::index$|^<String as Index<std::ops::RangeFrom<usize>>>::index$')
+@M.add(r'^<str as Index<(?:std::ops::)?RangeFrom<usize>>>::index$|^<String as Index<(?:std::ops::)?RangeFrom<usize>>>::index$')
 def m_str_from(ex, c, args, m): return _byte_slice(str(S(args[0])), conc(args[1].f[0]), None)
-@M.add(r'^<str as Index<std::ops::RangeTo<usize>>>::index$|^<String as Index<std::ops::RangeTo<usize>>>::index$')
+@M.add(r'^<str as Index<(?:std::ops::)?RangeTo<usize>>>::index$|^<String as Index<(?:std::ops::)?RangeTo<usize>>>::index$')
 def m_str_to(ex, c, args, m): return _byte_slice(str(S(args[0])), None, conc(args[1].f[0]))
-@M.add(r'^<str as Index<std::ops::Range<usize>>>::index$|^<String as Index<std::ops::Range<usize>>>::index$')
+@M.add(r'^<str as Index<(?:std::ops::)?Range<usize>>>::index$|^<String as Index<(?:std::ops::)?Range<usize>>>::index$')
 def m_str_range(ex, c, args, m): return _byte_slice(str(S(args[0])), conc(args[1].f[0]), conc(args[1].f[1]))
 @M.add(r'^char::methods::<impl char>::(is_whitespace|is_alphanumeric|is_alphabetic|is_numeric|is_ascii_digit|is_ascii_alphanumeric)$')
 def m_char_pred(ex, c, args, m):
@@ -1061,7 +1061,7 @@ def m_str_parse(ex, c, args, m):
 @M.add(r'^String::push_str$|^String::push$')
 def m_str_push(ex, c, args, m):
     r = args[0]; r.c[r.k] = PyStr(str(r.c[r.k]) + str(S(args[1]))); return Unit()
-@M.add(r'^<String as std::ops::Add<&str>>::add$')
+@M.add(r'^<String as (?:std::ops::)?Add<&str>>::add$')
 def m_str_add(ex, c, args, m): return PyStr(str(args[0]) + str(S(args[1])))
 @M.add(r'^<(slot::)?Slot as ToString>::to_string$|^<(usize|u32|u64|types::Id|Id) as ToString>::to_string$')
 def m_to_string(ex, c, args, m): return PyStr('<to_string>')
@@ -1096,3 +1096,6 @@ def m_elapsed(ex, c, args, m):
 
 # ------------------------------------------------------------------ constants
 M.consts[r'^(std::iter::|core::iter::)?Empty::<'] = lambda ex, body: It([])
+
+@M.add(r'^(std::ops::)?RangeInclusive::<.*>::new$')
+def m_range_incl(ex, c, args, m): return Struct({0: args[0], 1: args[1] + 1}, 'Range(inclusive)')
